@@ -18,7 +18,16 @@ import (
 	"gosym/vm"
 )
 
-const RepoDir = "/repo"
+// RepoDir is /repo; GOSYM_REPO_DIR points the same checks at a scratch worktree
+// of it (used only to evaluate seeded changes without touching /repo).
+var RepoDir = repoDir()
+
+func repoDir() string {
+	if d := os.Getenv("GOSYM_REPO_DIR"); d != "" {
+		return d
+	}
+	return "/repo"
+}
 
 // VerifDir is /verif unless GOSYM_VERIF_DIR points at a snapshot of it (background runs).
 var (
